@@ -1048,6 +1048,7 @@ class Engine:
                 else:
                     cx.raise_always("TypeError")
                     raise PathAbort()
+        self._orig_actual = dict(actual)
         for p in pnames:
             actual[p] = self.coerce(actual[p], c.params[p], cx, f"{c.qualname}.{p}")
         # ghost arguments
@@ -1118,11 +1119,15 @@ class Engine:
                 if gw is not None:
                     (tmpst or st).env[gw] = post[p]
                 continue                     # defaulted argument / ghost output: nothing to write back to
+            newv = post[p]
+            orig = getattr(self, "_orig_actual", {}).get(p)
+            if isinstance(newv, PyOpt) and orig is not None and not isinstance(orig, (PyOpt, PyNone)):
+                newv = newv.value          # the argument was a definite value wrapped for an Optional parameter
             if tmpst is not None:
                 tcx = Ctx(self, tmpst, cx.node)
-                self.assign(_as_store(nd), post[p], tcx)
+                self.assign(_as_store(nd), newv, tcx)
             else:
-                self.assign(_as_store(nd), post[p], cx)
+                self.assign(_as_store(nd), newv, cx)
 
     def coerce(self, v, ty, cx, what):
         """adapt an actual argument to the callee's declared parameter type"""
